@@ -83,8 +83,10 @@ class Panoptica_Aggregator:
         else:
             out_file_path += ".tsv"  # add extension
 
+        # one buffer per output file; the name is not a valid output file name (no .tsv extension),
+        # so it can never coincide with the output file of another aggregator
         out_buffer_file: Path = Path(out_file_path).parent.joinpath(
-            Path(out_file_path).stem + "_panoptica_aggregator_tmp.tsv"
+            Path(out_file_path).name + ".panoptica_aggregator_tmp"
         )
         self.__output_buffer_file = out_buffer_file
 
